@@ -684,6 +684,11 @@ system_connect(struct system *sys, struct bay *bay, struct recorder *rec)
 		return -1;
 	}
 
+	if (cpu_create_pcf_types(pvt_get_pcf(pvt_cpu)) != 0) {
+		err("cpu_create_pcf_types failed");
+		return -1;
+	}
+
 	struct pcf_type *affinity_type = thread_get_affinity_pcf_type(pcf_th);
 
 	for (struct cpu *cpu = sys->cpus; cpu; cpu = cpu->next) {
